@@ -267,9 +267,15 @@ def run(ctx: Context):
         r.require(enc_codec is not None and enc_codec == dec_codec, unp, unp.loc(ia),
                   "name is written with encode(%s) but read with decode(%s)" % (enc_codec, dec_codec))
         # (node, metadata) tuple order: writer reads [0] as the node and [1] as metadata
-        r.require(ro_recv is not None and ro_recv.endswith("[0]") and md_src is not None and md_src.endswith("[1]")
-                  and ro_recv[:-3] == md_src[:-3], pack, pack.loc(ij),
-                  "writer takes the node from %s and the metadata from %s" % (ro_recv, md_src))
+        # (decidable only while both come from one subscripted pair; otherwise the clause is skipped)
+        m0 = re.match(r"^(.*)\[(\d+)\]$", ro_recv or "")
+        m1 = re.match(r"^(.*)\[(\d+)\]$", md_src or "")
+        if m0 and m1 and m0.group(1) == m1.group(1):
+            r.require((m0.group(2), m1.group(2)) == ("0", "1"), pack, pack.loc(ij),
+                      "writer takes the node from %s and the metadata from %s; readers and editors store "
+                      "(node, metadata)" % (ro_recv, md_src))
+        else:
+            ctx.note("C19.1: (node, metadata) tuple order of the writer not decidable from %s / %s" % (ro_recv, md_src))
         for (n, k, v) in kstores:
             ok = isinstance(v, ast.Tuple) and len(v.elts) == 2
             if ok:
